@@ -38,7 +38,7 @@ def main():
                       programs='quick: every opcode once (operand kind rotates with VERIF_SEED) + every 4th x2/x4 form + structural extras; thorough: whole single-opcode family',
                       targets='sse, avx, mmx (64-bit code)')
     rep.assume(*x86common.ASSUME)
-    results, info = x86run.run(('C01', 'C11'), flagsets=flagsets(), quick_frac=4, n_small=True)
+    results, info = x86run.run(('C01', 'C11'), flagsets=flagsets(), quick_frac=4, n_small=True, diff_only=True)
     # C11's statement includes: for every flag subset under which the program still compiles, the code computes the same results
     for r in results:
         r['viol']['C11'] = r['viol'].get('C11', []) + ['[results under this flag set] ' + x for x in r['viol'].get('C01', [])]
